@@ -333,9 +333,19 @@ def ex_spatial(ctx, lat_case, n, seed=0):
     dhd = Decimal(lat_case["dh"])
     # a larger region (the full rectangle, two cells wider on every side) the catalog may already be bound to
     big = fixtures.region(lat_case["nx"] + 4, lat_case["ny"] + 4, lat_case["dh"], Decimal(lat_case["ax"]) - 2 * dhd, Decimal(lat_case["ay"]) - 2 * dhd)
-    for in_place, bound in ((False, None), (True, None), (False, "ctor"), (True, "earlier-filter")):
+    from csep.core.regions import CartesianGrid2D
+    for in_place, bound in ((False, None), (True, None), (False, "ctor"), (True, "earlier-filter"), (bool(seed % 2), "earlier-filter-twin")):
         c = fixtures.catalog(lon, lat, numpy.full(lon.size, 5.0), region=big if bound == "ctor" else None)
         tags = dict(tags, bound_to_other_region=bound)
+        if bound == "earlier-filter-twin":
+            # history: the same catalog object was first reduced in place to a twin of the region under test - same cells, spacing and name,
+            # every cell active (the two compare equal: flags are not part of a region's dictionary form) - then filtered to the region itself
+            okb, twin, tbb = ctx.call(CartesianGrid2D.from_origins, numpy.array(reg.origins()), dh=reg.dh, name=reg.name)
+            if okb:
+                okb, _c, tbb = ctx.call(c.filter_spatial, twin, in_place=True)
+            if not okb:
+                continue
+            ctx.mon("history:spatial-rebind", 1)
         if bound == "earlier-filter":
             # history: filtered to the larger region first (which binds it), then to the region under test
             okb, c, tbb = ctx.call(c.filter_spatial, big, in_place=False)
